@@ -97,12 +97,12 @@ class Place:
         return [fxv("rotation", W[r], d) for r in range(d)], fxv("translation", t, d)
 
 
-def hull_obs(api, h, it, pl):
-    P = np.asarray(it["pts"], dtype=np.float64)
+def hull_obs(api, h, pts, pl, tol=1e-9):
+    P = np.asarray(pts, dtype=np.float64)
     V = pl.back(np.asarray(h.vertices, dtype=np.float64).reshape(-1, 3))
     hv = []
     for v in V:
-        hit = np.nonzero(np.abs(P - v).max(axis=1) <= 1e-9)[0]
+        hit = np.nonzero(np.abs(P - v).max(axis=1) <= tol)[0]
         hv.append(int(hit[0]) if len(hit) else -1)
     F = np.asarray(h.faces)
     if F.size and (F.ndim != 2 or F.shape[1] != 3):
@@ -192,8 +192,150 @@ def guarded(rec, name, thunk):
         rec["exc"] = f"{name}:{type(e).__name__}"[:40]
 
 
+WIDE_L = 100000
+
+
+def observe_wide(trimesh, it):
+    """hull of tight lattice clusters far apart: point = cl * L + lo (spec/Hull.tla, kind hullw)"""
+    pl = Place(it["place"], it["off"], it["sc"])
+    P = np.array([[c * WIDE_L + l for c, l in zip(cl, lo)] for cl, lo in it["pts"]], dtype=np.float64)
+    Q = pl.fwd(P)
+    rec = {"exc": "", "kind": "hullw", "dim": 3, "L": WIDE_L, "pts": [[list(cl), list(lo)] for cl, lo in it["pts"]],
+           "off": [int(x) for x in it["off"]], "sc": int(it["sc"]), "sane": bool(it["sane"]), "item": it["k"], "obs": []}
+    guarded(rec, "convex_hull", lambda: hull_obs("ch", trimesh.convex.convex_hull(Q.copy()), P, pl, tol=1e-6))
+    guarded(rec, "pc.convex_hull", lambda: hull_obs("pc", trimesh.PointCloud(Q.copy()).convex_hull, P, pl, tol=1e-6))
+    return [rec]
+
+
+def cube_symmetry(perm, flip):
+    """the lattice map p -> S p + c of the cube {0..3}^3 onto itself"""
+    S = np.zeros((3, 3))
+    c = np.zeros(3)
+    for a in range(3):
+        S[a, perm[a]] = -1.0 if flip[a] else 1.0
+        c[a] = 3.0 if flip[a] else 0.0
+    return S, c
+
+
+def observe_history(trimesh, it):
+    """one object, a script of reads and exact moves; every read is one record whose pts are the
+    vertices the object has at that moment (read back AFTER the volumes of the group were read, so
+    that the harness does not touch the vertex array between a move and the reads that follow it)"""
+    pl = Place(it["place"], it["off"], it["sc"])
+    Q = pl.fwd(it["pts"])
+    if it["faces"] is None:
+        g = trimesh.PointCloud(Q.copy())
+        tag = "pc"
+    else:
+        g = trimesh.Trimesh(vertices=Q.copy(), faces=np.array(it["faces"], dtype=np.int64), process=False)
+        tag = "mesh"
+    out, group, done = [], [], []
+
+    def current():
+        V = pl.back(np.array(g.vertices, dtype=np.float64))
+        R = np.round(V)
+        if V.shape != (len(it["pts"]), 3) or np.abs(V - R).max() > 1e-9 or R.min() < 0 or R.max() > 3:
+            raise MachineryError("history %s: the object's vertices left the lattice (transforms are property C19)"
+                                 % "/".join(done))
+        return [[int(x) for x in p] for p in R]
+
+    def flush():
+        if group:
+            pts = current()
+            P = np.asarray(pts, dtype=np.float64)
+            for r in group:
+                r["pts"] = pts
+                for o in r["obs"]:
+                    if "_V" in o:       # hull vertices -> indices of the equal current vertex
+                        o["hv"] = [int(hit[0]) if len(hit) else -1 for hit in
+                                   (np.nonzero(np.abs(P - v).max(axis=1) <= 1e-9)[0] for v in o.pop("_V"))]
+            group.clear()
+
+    def hull_later(h, pl_now):
+        o = hull_obs(tag, h, np.zeros((0, 3)), pl_now)
+        o["_V"] = pl_now.back(np.asarray(h.vertices, dtype=np.float64).reshape(-1, 3))
+        return o
+
+    def read(kind, name, thunk):
+        r = {"exc": "", "kind": kind, "dim": 3, "pts": None, "off": [int(x) for x in pl.off], "sc": int(pl.sc),
+             "sane": False, "item": it["k"], "hist": "/".join(done + [name]), "obs": []}
+        guarded(r, name, thunk)
+        group.append(r)
+        out.append(r)
+        done.append(name)
+
+    def prim_obs(p):
+        kind = type(p).__name__
+        if kind == "Box":
+            return "obb", box_obs(tag, np.linalg.inv(np.asarray(p.primitive.transform, dtype=np.float64)), p.primitive.extents, pl, 3)
+        if kind == "Sphere":
+            return "sphere", sphere_obs(tag, p.primitive.center, p.primitive.radius, pl, 3)
+        if kind == "Cylinder":
+            return "cyl", cyl_obs(tag, p.primitive.transform, p.primitive.radius, p.primitive.height, pl)
+        raise Raised("primitive_" + kind)
+
+    for step in it["script"]:
+        op = step[0]
+        if op == "hull":
+            read("hull", "convex_hull", lambda: hull_later(g.convex_hull, pl))
+        elif op == "obb":
+            read("obb", "bounding_box_oriented", lambda: prim_obs(g.bounding_box_oriented)[1])
+        elif op == "ob":
+            read("obb", "oriented_bounds", lambda: box_obs("ob", *trimesh.bounds.oriented_bounds(g), pl, 3))
+        elif op == "sphere":
+            read("sphere", "bounding_sphere", lambda: prim_obs(g.bounding_sphere)[1])
+        elif op == "mn":
+            read("sphere", "minimum_nsphere", lambda: sphere_obs("mn", *trimesh.nsphere.minimum_nsphere(g), pl, 3))
+        elif op == "cyl":
+            read("cyl", "bounding_cylinder", lambda: prim_obs(g.bounding_cylinder)[1])
+        elif op == "prim":
+            got = {}
+
+            def whichever():
+                got["kind"], o = prim_obs(g.bounding_primitive)
+                return o
+
+            read("obb", "bounding_primitive", whichever)
+            out[-1]["kind"] = got.get("kind", "obb")
+        elif op == "apply_obb":
+            def applied():
+                ext = np.array(g.bounding_box_oriented.primitive.extents, dtype=np.float64)
+                M = g.apply_obb()
+                return box_obs("apply", M, ext, pl, 3, newv=np.asarray(g.vertices))
+            flush()
+            r = {"exc": "", "kind": "obb", "dim": 3, "pts": current(), "off": [int(x) for x in pl.off],
+                 "sc": int(pl.sc), "sane": False, "item": it["k"], "hist": "/".join(done + ["apply_obb"]), "obs": []}
+            guarded(r, "apply_obb", applied)
+            out.append(r)
+            break           # the vertices are no lattice points any more
+        else:
+            flush()
+            if op == "translate":
+                v = np.array(step[1], dtype=np.float64)
+                g.apply_translation(v * pl.sc)
+                pl = Place(pl.name, pl.off + v, pl.sc)
+            elif op == "scale":
+                g.apply_scale(float(step[1]))
+                pl = Place(pl.name, pl.off, pl.sc * step[1])
+            elif op == "symmetry":
+                S, c = cube_symmetry(step[1], step[2])
+                M = np.eye(4)
+                M[:3, :3] = S
+                M[:3, 3] = (c + pl.off - S @ pl.off) * pl.sc
+                g.apply_transform(M)
+            else:
+                raise MachineryError("unknown step " + str(op))
+            done.append(op)
+    flush()
+    return out
+
+
 def observe(trimesh, it):
     """all records (one per kind) of one placed input"""
+    if it.get("wide"):
+        return observe_wide(trimesh, it)
+    if it.get("script"):
+        return observe_history(trimesh, it)
     pl = Place(it["place"], it["off"], it["sc"])
     d = it["dim"]
     Q = pl.fwd(it["pts"])
@@ -228,9 +370,9 @@ def observe(trimesh, it):
     lean = it.get("lean", False)     # bulk families: one API per kind
     # ---- hull
     r = new("hull")
-    guarded(r, "convex_hull", lambda: hull_obs("ch", CV.convex_hull(Q.copy() if it["faces"] is None else geo()), it, pl))
+    guarded(r, "convex_hull", lambda: hull_obs("ch", CV.convex_hull(Q.copy() if it["faces"] is None else geo()), it["pts"], pl))
     if not lean:
-        guarded(r, tag + ".convex_hull", lambda: hull_obs(tag, geo().convex_hull, it, pl))
+        guarded(r, tag + ".convex_hull", lambda: hull_obs(tag, geo().convex_hull, it["pts"], pl))
     # ---- axis aligned box
     r = new("aabb")
     guarded(r, tag + ".bounds", lambda: aabb_obs(tag, geo(), pl))
@@ -524,6 +666,62 @@ def placements(rs, d, how_many):
     return [("origin", [0] * d, 1)] + rest[:how_many]
 
 
+def scripts(rs, cyl):
+    """read orders and exact moves for one object (see observe_history)"""
+    def move():
+        u = rs.randint(3)
+        if u == 0:
+            v = [int(x) for x in rs.randint(-3, 4, size=3)]
+            return ("translate", v if any(v) else [2, -1, 3])
+        if u == 1:
+            return ("scale", 2)
+        while True:
+            perm, flip = [int(x) for x in rs.permutation(3)], [int(x) for x in rs.randint(2, size=3)]
+            if perm != [0, 1, 2] or any(flip):
+                return ("symmetry", perm, flip)
+
+    c = [("cyl",)] if cyl else []
+    hull_first = [("hull",), ("obb",), ("sphere",)] + c
+    sphere_first = [("sphere",), ("hull",), ("obb",)] + c
+    nsphere_first = [("mn",), ("ob",), ("hull",)] + c
+    prim_first = [("prim",), ("hull",), ("cyl",), ("obb",)]
+    return [
+        hull_first + [move()] + hull_first + [move()] + sphere_first,
+        sphere_first + [move()] + [("obb",), ("hull",), ("sphere",)] + c + [("apply_obb",)],
+        nsphere_first + [move(), move()] + [("hull",), ("sphere",), ("ob",)],
+        prim_first + [move()] + [("prim",), ("hull",), ("obb",), ("sphere",)],
+    ]
+
+
+def wide_sets(rs, count):
+    """tight lattice clusters 10^5 apart: (family, [(cl, lo), ...]); the hull has faces inside a cluster
+    (area about 1) next to faces spanning clusters (area about 10^10)"""
+    out = []
+    corners = list(itertools.product((0, 1), repeat=3))
+    # a cube with chamfered corners: at every corner the three lattice neighbours of the corner along its edges
+    for size in (1, 2):
+        P = []
+        for c in corners:
+            for a in range(3):
+                lo = [3 if c[x] else 0 for x in range(3)]
+                lo[a] += -size if c[a] else size
+                P.append((tuple(c), tuple(lo)))
+        out.append(("wide_chamfered_cube", P))
+    while len(out) < count:
+        k = rs.randint(2, 5)
+        cl = [corners[j] for j in rs.choice(8, k, replace=False)]
+        if rs.rand() < 0.3:
+            cl = [tuple(int(x) * rs.randint(1, 3) for x in c) for c in cl]
+        P = []
+        for c in cl:
+            for j in rs.choice(64, rs.randint(1, 5), replace=False):
+                P.append((tuple(c), GRID3[j]))
+        A = np.array([[c * WIDE_L + l for c, l in zip(cl_, lo)] for cl_, lo in P], dtype=np.float64)
+        if 4 <= len(P) <= 16 and np.linalg.matrix_rank(A[1:] - A[0]) == 3:
+            out.append(("wide_clusters", P))
+    return out
+
+
 def work_items(tier):
     rs = np.random.RandomState(seed() + 1616)
     big = tier == "thorough"
@@ -550,6 +748,28 @@ def work_items(tier):
             add("mesh_" + name, 3, verts, faces, 4 if big else 2)
     for fam, P in planar_families(rs, pcounts):
         add(fam, 2, P, None, 2 if big else 1)
+    # ---- histories on one object: read orders, exact moves, reads again
+    nh = (40 * m, 24 * m)
+    pool = [P for _, P in point_families(rs, {"random": nh[0], "block": 0, "slab": 0, "cluster": 0, "flat": 0,
+                                              "generic": 0, "ties": nh[0] // 4, "dups": 0})]
+    objs = [("pc", P, None) for P in pool] + [("mesh", v, f) for _, v, f in mesh_library(rs, nh[1])]
+    for j, (tag, P, F) in enumerate(objs):
+        if len(P) > 12:
+            continue
+        name, off, sc = placements(rs, 3, 1)[j % 2]
+        for n, script in enumerate(scripts(rs, cyl=(j % 3 == 0))):
+            if (j + n) % 2 == 0 or tag == "mesh":
+                k = len(items)
+                items.append({"k": k, "base": base, "family": "history_" + tag, "dim": 3, "pts": P, "faces": F,
+                              "place": name, "off": off, "sc": sc, "script": script, "sane": False})
+        base += 1
+    # ---- wide inputs
+    for fam, P in wide_sets(rs, 30 * m):
+        for name, off, sc in placements(rs, 3, 1):
+            k = len(items)
+            items.append({"k": k, "base": base, "family": fam, "dim": 3, "pts": P, "faces": None, "wide": True,
+                          "place": name, "off": off, "sc": sc, "sane": k % 4 == 0})
+        base += 1
     if big:
         # every 4- and 5-point subset of {0,1,2}^3 that spans three dimensions (every fourth also far away)
         grid = [p for p in GRID3 if max(p) <= 2]
@@ -562,8 +782,14 @@ def work_items(tier):
 
 # ------------------------------------------------------------------ verdicts
 def detail_of(rec, it):
-    return {"family": it["family"], "dim": it["dim"], "place": it["place"], "off": it["off"], "sc": it["sc"],
-            "pts": it["pts"], "faces": it["faces"], "kind": rec["kind"], "exc": rec["exc"], "obs": rec["obs"]}
+    d = {"family": it["family"], "dim": it["dim"], "place": it["place"], "off": it["off"], "sc": it["sc"],
+         "pts": it["pts"], "faces": it["faces"], "kind": rec["kind"], "exc": rec["exc"], "obs": rec["obs"]}
+    if it.get("script"):
+        d.update(script=it["script"], history=rec.get("hist", ""), vertices_then=rec["pts"],
+                 off_then=rec["off"], sc_then=rec["sc"])
+    if it.get("wide"):
+        d["wide"] = True
+    return d
 
 
 def main(argv):
@@ -577,9 +803,14 @@ def main(argv):
         for v in rp["violations"]:
             d = v["detail"]
             for name, off, sc in (("origin", [0] * d["dim"], 1), (d["place"], d["off"], d["sc"])):
-                items.append({"k": len(items), "base": len(items) // 2, "family": d["family"], "dim": d["dim"],
-                              "pts": [tuple(p) for p in d["pts"]], "faces": d["faces"], "place": name, "off": off,
-                              "sc": sc, "cyl": d["dim"] == 3, "sane": True})
+                it = {"k": len(items), "base": len(items) // 2, "family": d["family"], "dim": d["dim"],
+                      "pts": [tuple(p) for p in d["pts"]], "faces": d["faces"], "place": name, "off": off,
+                      "sc": sc, "cyl": d["dim"] == 3, "sane": True}
+                if d.get("script"):
+                    it.update(script=[tuple(x) for x in d["script"]], sane=False)
+                if d.get("wide"):
+                    it.update(wide=True, pts=[(tuple(c), tuple(l)) for c, l in d["pts"]])
+                items.append(it)
     else:
         items = work_items(tier)
     if not items or (not replay and len(items) < 1000):
@@ -617,11 +848,16 @@ def main(argv):
             bump(kinds, c["kind"])
             if c["kind"] == "obb":
                 bump(places, it["place"])
-            if c["kind"] == "hull":
+            if c["kind"] in ("hull", "hullw"):
                 bump(fam, it["family"])
+            if it.get("script"):
+                bump(stats, "records_read_in_a_history_after_a_move", int(any(
+                    x in c.get("hist", "") for x in ("translate", "scale", "symmetry"))))
+                bump(stats, "records_read_in_a_history_before_any_move", int(not any(
+                    x in c.get("hist", "") for x in ("translate", "scale", "symmetry"))))
             for o in c["obs"]:
                 bump(apis, c["kind"] + ":" + o["api"])
-            if c["kind"] == "hull" and not c["exc"]:
+            if c["kind"] == "hull" and not c["exc"] and c["obs"]:
                 o = c["obs"][0]
                 bump(stats, "hulls_with_an_input_that_is_no_vertex", int(len(set(o["hv"])) < len(set(it["pts"]))))
                 bump(stats, "hulls_with_a_zero_area_face", int(any(x["zero_area_faces"] for x in c["obs"])))
@@ -646,8 +882,8 @@ def main(argv):
                 dev = DEV_SPHERE          # fewer than dim + 1 inputs on the boundary of the minimal ball
             V.violation(clause, detail_of(c, it), dev)
         if len(samples) < 4:
-            for kind in ("hull", "sphere", "obb", "cyl"):
-                pick = [c for c in cases if c["kind"] == kind and not c["exc"]]
+            for kind in ("hull", "sphere", "obb", "hullw"):
+                pick = [c for c in cases if c["kind"] == kind and not c["exc"] and ("hist" in c) == (kind == "obb")]
                 if pick:
                     samples.append({k: v for k, v in pick[len(pick) // 3].items() if k not in ("id", "item")})
     shutil.rmtree(os.path.join(WORK, scratch), ignore_errors=True)
@@ -655,7 +891,8 @@ def main(argv):
     if not replay and not V.violations:
         # nothing was rejected: make sure the interesting situations were really met
         if kinds.get("hull", 0) < 800 or kinds.get("cyl", 0) < 100 or kinds.get("obb", 0) < 800 \
-                or kinds.get("sphere", 0) < 800 or stats.get("hulls_with_an_input_that_is_no_vertex", 0) < 100:
+                or kinds.get("sphere", 0) < 800 or stats.get("hulls_with_an_input_that_is_no_vertex", 0) < 100 \
+                or kinds.get("hullw", 0) < 40 or stats.get("records_read_in_a_history_after_a_move", 0) < 300:
             raise MachineryError(f"enumeration nearly empty: {kinds} {stats}")
         if decided < 100:
             raise MachineryError(f"minimality clause decided on {decided} records only: {notes}")
